@@ -30,7 +30,7 @@ class TopoRecorder:
         def wrapped(graph):
             o = rec.orig(graph)
             try:
-                rec.log.append((sorted(GG.vid(v) for v in graph.nodes()), [GG.vid(v) for v in o]))
+                rec.log.append((sorted(GE.name_id(v.name) for v in graph.nodes()), [GE.name_id(v.name) for v in o]))
             except Exception:
                 pass
             return o
@@ -51,7 +51,7 @@ class TopoRecorder:
 
 
 def c_table(tbl):
-    return "[" + "; ".join(f"({c_list([OFF + v for v in k])}, {c_list([OFF + v for v in o])})" for k, o in tbl.items()) + "]"
+    return "[" + "; ".join(f"({c_list(k)}, {c_list(o)})" for k, o in tbl.items()) + "]"
 
 
 def gen_query(rng, g, kmax=2):
